@@ -14,6 +14,7 @@ import (
 
 	"pgregory.net/rapid"
 
+	"verif/discsim"
 	"verif/evid"
 	"verif/memnet"
 	"verif/pairsim"
@@ -405,8 +406,8 @@ func TestCheck(t *testing.T) {
 	faulty := evid.RapidEngine("faulty", evid.RapidOpts{Quick: 10000, Thorough: 300000, Crashy: true}, genFaulty, account("faulty"))
 	stream := evid.RapidEngine("stream", evid.RapidOpts{Quick: 3000, Thorough: 80000, Crashy: true}, genTCP, account("stream"))
 	r.Main(evid.Meta{
-		Rule:        "two library endpoints on the in-memory network in a synctest bubble. grid (fault-free): every SZX pair 0-6 x request sizes {0,1,s-1,s,s+1,2s-1,2s,2s+1,3s+5} x response sizes around the responder's block size on the datagram transport, and SZX {0,4,6,7}x{0,5,6,7} x four max-message-size pairs (BERT only with >= 1152) on the stream transport. faulty: generated SZX pairs, 1-4 (partly concurrent) POST/PUT/GET/one-way write/observe exchanges with bodies at block boundaries +-1, the responder processing messages one by one or each on a goroutine of its own, per-direction fault tapes (drop, duplicate, re-order, replay an older datagram, add a foreign-token copy of a later block) and latencies. stream: SZX 0-7 x max message sizes x read segmentations. Oracle: whatever body reaches an application or a caller equals a complete original (position-dependent pseudo-random bytes), exactly once for a successful exchange, options preserved, never 2.31 as a final response, every call returns by its deadline. receiver: one receiving BlockWise driven directly through Handle, 1-3 uploads fed block by block with the processing of a block parked inside the copy into the reassembly buffer while blocks of other uploads, duplicates of earlier blocks and the housekeeping sweep (before, around and after the expiry of the reassembly entries) run; the pool is a last-in-first-out list; oracle: what reaches the handler is exactly one upload's bytes under its token, at most once, and nothing panics or hangs. Non-trivial = at least one body needs >= 2 blocks; distinct by scenario",
+		Rule:        discsim.RuleBlocks + ". Others: two library endpoints on the in-memory network in a synctest bubble. grid (fault-free): every SZX pair 0-6 x request sizes {0,1,s-1,s,s+1,2s-1,2s,2s+1,3s+5} x response sizes around the responder's block size on the datagram transport, and SZX {0,4,6,7}x{0,5,6,7} x four max-message-size pairs (BERT only with >= 1152) on the stream transport. faulty: generated SZX pairs, 1-4 (partly concurrent) POST/PUT/GET/one-way write/observe exchanges with bodies at block boundaries +-1, the responder processing messages one by one or each on a goroutine of its own, per-direction fault tapes (drop, duplicate, re-order, replay an older datagram, add a foreign-token copy of a later block) and latencies. stream: SZX 0-7 x max message sizes x read segmentations. Oracle: whatever body reaches an application or a caller equals a complete original (position-dependent pseudo-random bytes), exactly once for a successful exchange, options preserved, never 2.31 as a final response, every call returns by its deadline. receiver: one receiving BlockWise driven directly through Handle, 1-3 uploads fed block by block with the processing of a block parked inside the copy into the reassembly buffer while blocks of other uploads, duplicates of earlier blocks and the housekeeping sweep (before, around and after the expiry of the reassembly entries) run; the pool is a last-in-first-out list; oracle: what reaches the handler is exactly one upload's bytes under its token, at most once, and nothing panics or hangs. Non-trivial = at least one body needs >= 2 blocks; distinct by scenario",
 		Assumptions: []string{"completion is not required by the statement; a completion rate under 95% on the fault-free grid makes the run inconclusive instead of silently vacuous", "a call that returns a response with an error status (e.g. 4.08) counts as ended with an error", "the library never advertises Block-Wise-Transfer in its CSM, so on the stream transport a peer that does is modelled by a CSM frame placed on the stream before each endpoint starts"},
 		Floor:       300,
-	}, gridEngine(t), faulty, stream, receiverEngine(t, r))
+	}, gridEngine(t), faulty, stream, receiverEngine(t, r), discsim.Engine(r, "blocks", 6, 120))
 }
